@@ -804,3 +804,22 @@ B('j17_neg_cache_read_unfilled', ['C17'], 'R17.k',
   (RS, "            resp_mime = request.accept_mimetypes.best_match(self.mimetypes)\n",
        "            resp_mime = request.accept_mimetypes.best_match(self._served_mimes)\n"
        "            if self._served_mimes is None:\n                self._served_mimes = tuple(self._format_mime_map.values())\n"))
+
+# R17.m: optional attributes of a FunctionBuilder (None unless the callable supplies them -- pinned boltons) are used as
+# text on the render paths only behind a presence test
+_LBL_GUARD = "    if fb.module:\n        ctx_parts.insert(0, fb.module)\n"
+_LBL_RET = "    return '.'.join(ctx_parts), fb.name, fb.get_invocation_str()\n"
+T('j17_label_module_is_not_none', ['C17'], (S, _LBL_GUARD, "    if fb.module is not None:\n        ctx_parts.insert(0, fb.module)\n"))
+T('j17_label_module_local', ['C17'], (S, _LBL_GUARD, "    module = fb.module\n    if module:\n        ctx_parts.insert(0, module)\n"))
+T('j17_label_module_defaulted', ['C17'], (S, _LBL_GUARD, "    ctx_parts.insert(0, fb.module or '<unknown>')\n"))
+T('j17_label_module_guard_clause', ['C17'],
+  (S, _LBL_GUARD + "\n\n" + _LBL_RET, "    if not fb.module:\n        return '.'.join(ctx_parts), fb.name, fb.get_invocation_str()\n"
+      "    return '.'.join([fb.module] + ctx_parts), fb.name, fb.get_invocation_str()\n"))
+B('j17_label_module_unguarded_insert', ['C17'], 'R17.m', (S, _LBL_GUARD, "    ctx_parts.insert(0, fb.module)\n"))
+B('j17_label_module_in_joined_display', ['C17'], 'R17.m',
+  (S, _LBL_GUARD + "\n\n" + _LBL_RET, "    return '.'.join([fb.module] + ctx_parts), fb.name, fb.get_invocation_str()\n"))
+B('j17_label_module_concatenated', ['C17'], 'R17.m',
+  (S, _LBL_GUARD + "\n\n" + _LBL_RET, "    return fb.module + '.' + '.'.join(ctx_parts), fb.name, fb.get_invocation_str()\n"))
+B('j17_label_module_dereferenced', ['C17'], 'R17.m', (S, _LBL_GUARD, "    ctx_parts.insert(0, fb.module.rpartition('.')[2])\n"))
+B('j17_label_module_local_unguarded', ['C17'], 'R17.m', (S, _LBL_GUARD, "    module = fb.module\n    if ctx_parts:\n        ctx_parts.insert(0, module)\n"))
+B('j17_label_guard_on_other_attribute', ['C17'], 'R17.m', (S, _LBL_GUARD, "    if fb.name:\n        ctx_parts.insert(0, fb.module)\n"))
